@@ -363,6 +363,8 @@ def run_bare(name, domain, version, inputs, attrs, n_out, backend):
         so = ort.SessionOptions()
         so.graph_optimization_level = ort.GraphOptimizationLevel.ORT_DISABLE_ALL
         so.log_severity_level = 4
+        so.intra_op_num_threads = 1
+        so.inter_op_num_threads = 1
         sess = ort.InferenceSession(m.SerializeToString(), so, providers=["CPUExecutionProvider"])
         return [np.asarray(x) for x in sess.run(None, feeds)]
     import onnx.reference
